@@ -159,9 +159,9 @@ func alphabet(tier string) []string {
 var harness = &seqmc.Harness{
 	Property: prop,
 	Configs: func(tier string) []seqmc.Config {
-		d := 6
+		d := 7
 		if tier == "thorough" {
-			d = 7
+			d = 8
 		}
 		return []seqmc.Config{{Name: "failure-atomicity", Alphabet: alphabet(tier), Depth: d}}
 	},
